@@ -18,13 +18,17 @@ CFG = cfg('C20', refine=[], extract='Ex_C20', driver='c20',
                        '`sig is self._signatures[0]`) reached only through the correspondence run',
                        'nothing of C20 is translated by py2coq; the tie is the correspondence run + pinned source text of PGPMessage.__iter__ / __bytearray__'])
 
-TEXT = ('Rocq theorems (Props/C20.v, closed under the global context): for every literal, compression algorithm and every list of signatures added in '
-        'any order the export is derivable from the RFC 4880 11.3 grammar (inductive transcription; the boolean checker used at run time is proved sound '
-        'and complete for it), the i-th one-pass packet describes the (n-1-i)-th signature, only the last carries flag 1 (old rule refuted), the '
-        'compression packet wraps the whole signed sequence, encrypted messages are signatures* ESK+ one container, import(export) returns the same state '
-        '(content, name, time, format, compression, signature list), literal / one-pass body codecs round-trip with following data untouched and agree '
-        'with the RFC decoders, byte-level parse(emit) round trip under the decompress(compress) premise, partial-length / old-format foreign framings '
-        'decode to the same packets. Format t read back as latin-1 and a five-octet time after 2106 are refuted with witnesses + characterisation. '
-        'Tie: correspondence of the extracted model with the real code on generated messages + direct oracles.',
+TEXT = ('Rocq theorems (Props/C20.v, 25 statements, closed under the global context): for every literal, compression algorithm and every list of '
+        'signatures added in any order at any times the export is derivable from the RFC 4880 11.3 grammar (inductive transcription; the boolean checker '
+        'used at run time is proved sound and complete for it); the i-th one-pass packet describes the (n-1-i)-th signature, their number equals the '
+        'number of signatures, only the last carries flag 1 and the RFC 5.4 flag rule holds on the whole export (old rule refuted); the compression '
+        'packet wraps the whole signed sequence (packet and octet level); encrypted messages are signatures* ESK+ one container for every history of '
+        'encrypt / sign steps; import(export) returns the same state (content, name, time, format, compression, signature list) at packet level and, '
+        'under the premise decompress(compress x) = x on the primitive, at octet level (parse(emit) for every well-formed nested packet sequence, fuel '
+        'sufficiency in the statement); literal / one-pass body codecs round-trip with following data untouched and agree with independent RFC 5.9 / 5.4 '
+        'decoders; partial-length and old-format framings decode to the same tag, length and body. Three defect classes are refuted with witnesses and '
+        'characterised: format t read back as latin-1, a five-octet time after 2106, the MDC packet re-exported by a decrypted message. '
+        'Tie: byte-for-byte correspondence of the extracted model with the real code on generated messages (export, import state, re-export, codecs, '
+        '__or__ on arbitrary packet sequences) + direct property oracles + pinned source text of PGPMessage.__iter__ / __bytearray__.',
         'DESIGN.md 5 C20',
         'machine-checked proof in Rocq (Coq 8.16.1) + extracted-model correspondence + direct property oracles')
